@@ -41,8 +41,8 @@ fn check_view(v: TensorView<i32>, desc: &str, found: &mut usize, cases: &mut usi
     if v.iter().copied().collect::<Vec<_>>() != e { report(found, "iter() order", desc); }
     if v.iter().len() != n { report(found, "iter().len()", desc); }
     if v.iter().rev().copied().collect::<Vec<_>>() != e.iter().rev().copied().collect::<Vec<_>>() { report(found, "iter().rev()", desc); }
-    for a in 0..=n.min(4) {
-        for b in 0..=(n - a).min(3) {
+    for a in 0..=n.min(if cfg!(miri) { 2 } else { 4 }) {
+        for b in 0..=(n - a).min(if cfg!(miri) { 1 } else { 3 }) {
             let mut it = v.iter();
             let mut front = Vec::new();
             let mut back = Vec::new();
@@ -178,7 +178,9 @@ fn enumerate() {
     let mut found = 0usize;
     let mut cases = 0usize;
     let mut shapes: Vec<Vec<usize>> = Vec::new();
-    for a in 0..=3 { shapes.push(vec![a]); for b in 0..=3 { shapes.push(vec![a, b]); for c in 0..=3 { shapes.push(vec![a, b, c]); } } }
+    // under Miri (unit U-iter-miri: undefined-behaviour check of the same code) the domain is smaller
+    let max = if cfg!(miri) { 2 } else { 3 };
+    for a in 0..=max { shapes.push(vec![a]); for b in 0..=max { shapes.push(vec![a, b]); for c in 0..=max { if cfg!(miri) && a * b * c == 0 && a + b + c > 2 { continue; } shapes.push(vec![a, b, c]); } } }
     for shape in shapes {
         let n: usize = shape.iter().product();
         let mut t = Tensor::<i32>::from_data(shape.as_slice(), (0..n as i32).collect::<Vec<_>>());
